@@ -164,6 +164,8 @@ def iterparse_character_subset(s: str, expand_ranges: bool = False) -> Iterator[
                     elif s[k + 1] in r'sSdDiIcCwWpP':
                         msg = "bad character range '%s-\\%s' at position %d: %r"
                         raise RegexError(msg % (char, s[k + 1], k - 2, s))
+                    elif s[k + 1] == '\\':
+                        escaped = True  # the range ends with an escaped backslash
 
                 if ord(char) > ord(end_char):
                     msg = "bad character range '%s-%s' at position %d: %r"
